@@ -13,8 +13,9 @@ it lists
                       setdefault, insert, remove) on a module-level name
     mutable_state     (function, name) for every use of a module-level name bound to a mutable container or array
                       (list / dict / set display or comprehension, bytearray / list / dict / set / np.empty / np.zeros /
-                      np.ones / np.full / np.array / np.arange / memoryview call) - EXCEPT read-only use of a table that
-                      no function of the module ever writes (e.g. DECODE_TYPEMAP, the `encode` table)
+                      ... call) - EXCEPT read-only use of a list / dict / set table that no function of the module ever
+                      writes (e.g. DECODE_TYPEMAP, the `encode` table); a module-level ARRAY / bytearray (any np.* call) always
+                      counts: native code writes through aliases
     thread_locals     names bound to threading.local() at module level
 """
 import ast
@@ -43,7 +44,10 @@ def module_data(tree):
             kind = "mutable"
         elif isinstance(v, ast.Call):
             f = ast.unparse(v.func)
-            if f in MUTABLE_CALLS:
+            if f in ("np.empty", "np.zeros", "np.ones", "np.full", "np.array", "np.arange", "np.empty_like", "np.zeros_like", "np.frombuffer",
+                     "np.ndarray", "np.asarray", "bytearray", "memoryview"):
+                kind = "array"          # a buffer: native code can write through any alias of it, no syntactic store needed
+            elif f in MUTABLE_CALLS:
                 kind = "mutable"
             elif f in ("threading.local", "local"):
                 kind = "local"
@@ -83,7 +87,7 @@ def inventory(tree, wanted, modname):
             if isinstance(n, ast.Name) and n.id in data and n.id not in loc:
                 if isinstance(n.ctx, (ast.Store, ast.Del)):
                     writes.append((q, n.id))
-                elif data[n.id] in ("mutable", "local"):
+                elif data[n.id] in ("mutable", "local", "array"):
                     uses.append((q, n.id))
             # name[...] = / name.attr = / del name[...]
             if isinstance(n, (ast.Subscript, ast.Attribute)) and isinstance(n.ctx, (ast.Store, ast.Del)):
